@@ -69,8 +69,8 @@ def run(opts):
         vf.require_clean(r, "MC_DeckSyntax")
         chk.add_tlc(r)
         gens = c01.gen("Base_DeckSyntax.cfg", 3, 1, depth=2)
-        gens += c01.gen("Gen_DeckSyntax.cfg", chk.pick(40, 800), chk.seed % 100000 + 7)
-        gens += c01.gen("Gen1_DeckSyntax.cfg", chk.pick(30, 300), chk.seed % 100000 + 8, depth=4)
+        gens += c01.gen("Gen_DeckSyntax.cfg", chk.pick(40, 300), chk.seed % 100000 + 7)
+        gens += c01.gen("Gen1_DeckSyntax.cfg", chk.pick(30, 120), chk.seed % 100000 + 8, depth=4)
     scripts = []
     for n, x in enumerate(gens):
         x["seed"] = x.get("seed", rng.randrange(1 << 30))
